@@ -28,6 +28,7 @@ type Env struct {
 	callee   *FuncSpec // when evaluating a callee contract at a call site
 	prev     *State    // loop step clauses: state at the head of the current iteration
 	outer    *State    // inside old(): the state old() was evaluated in, for now(e)
+	lentry   *State    // loop clauses: the state in which the loop was entered, for atentry(e)
 }
 
 func (st *State) newEnv(fr *Frame, res []Value) *Env {
@@ -772,6 +773,17 @@ func (env *Env) call(e *Expr) Value {
 				return v
 			}
 			panic(specErr("cur(%s): no such local", args[0].Op))
+		case "atentry":
+			// atentry(e) in a loop invariant / step clause: e evaluated in the state in which the loop was entered
+			if env.lentry == nil {
+				return env.eval(args[0])
+			}
+			sub := *env
+			sub.st = env.lentry
+			sub.vars = env.vars
+			v := sub.eval(args[0])
+			env.defs = append(env.defs, sub.defs[len(env.defs):]...)
+			return v
 		case "prev":
 			if env.prev == nil {
 				panic(specErr("prev() outside a loop step clause"))
@@ -824,6 +836,8 @@ func (env *Env) call(e *Expr) Value {
 			t, _ := env.st.tryPtrTerm(v)
 			if isSlice(v.T) {
 				t = SlRef(v.Tm)
+			} else if v.T != nil && isInterface(v.T) {
+				t = IfVal(v.Tm) // the object an interface value wraps
 			}
 			return Value{T: B, Tm: Gt(t, env.old.alloc)}
 		case "typeis":
